@@ -14,7 +14,7 @@
 (* Every event carries its arguments and result, so the search is linear.  *)
 (* Acceptance is by POSTCONDITION on the number of consumed events.        *)
 (***************************************************************************)
-EXTENDS GraphAbs, Json, IOUtils, Lib_core, Lib_ver, Lib_shape
+EXTENDS GraphAbs, Json, IOUtils
 
 Events == ndJsonDeserialize(IOEnv.TRACE_FILE)
 
